@@ -59,11 +59,17 @@ SPECS["C13"] = {
                   "MaxChannelsPerKey and comparing every observation inside Coq; the monitor proved correct for the model "
                   "is also evaluated on the implementation's traces.",
     "level_note": "Trusted: Coq kernel, vm_compute, the Rust harness and Python driver. Modelled not verified: Arc/Weak "
-                  "reference counts and tokio's unbounded mpsc as sequential data. Not covered: OS-thread races between "
-                  "strong_count() and upgrade(). Correspondence is sampled, not proved.",
+                  "reference counts and tokio's unbounded mpsc as sequential data. OS-thread races between strong_count(), "
+                  "upgrade(), the release of a channel and its delayed drop notification are covered by the race model "
+                  "PerKeyRace.v (theorems C13_race_*), which has no harness. Correspondence is sampled, not proved.",
     "design_ref": "DESIGN.md section 6 (C13)",
     "assumptions": ["one op (arrival, close, poll) is atomic; channels are closed by dropping them on the "
-                    "thread that polls the listener"],
+                    "thread that polls the listener (sequential machine, tied to the code)",
+                    "race model (PerKeyRace.v, proved, not tied to the code): strong_count() and upgrade() are each atomic, "
+                    "upgrade() succeeds iff the count is > 0 at that instant, strong_count() reads are sequentially "
+                    "consistent (a stale read can only be higher: a conservative shed), Tracker::drop sends its key some "
+                    "time after the count reached 0 (RRelease / RNotify), dropped_keys is linearizable, only the listener "
+                    "task touches key_counts"],
 }
 
 SPECS["C19"] = {
@@ -228,7 +234,8 @@ WIRE_HDR = ("From Coq Require Import String Ascii.\nFrom Coq Require Import List
             "Local Open Scope N_scope.\n")
 
 WIRE_TB = [
-    "translator tools/gen + the harness's recording serde::Serializer / probing serde::Deserializer "
+    "translator tools/gen + the harness's recording serde::Serializer / probing serde::Deserializer (which also drives "
+    "every struct's visit_seq with every prefix length: the acceptance tables cm_seq_table / resp_seq_table) "
     "(harness/src/shape.rs): they produce coq/Generated.v, against which the model's shapes, tables and "
     "constants are checked by computation (coq/GenChecks)",
     "modelled, not verified (third-party): bincode 1.3 DefaultOptions integer/container encodings, serde_json's "
@@ -244,7 +251,7 @@ SPECS["C15"] = {
     "coq_targets": ["Properties/C15.vo", "Checks/C15check.vo", "GenChecks/C15.vo"],
     "gen_obligations": ["gen_client_message_shape", "gen_response_shape", "gen_client_message_shape_wf",
                         "gen_response_shape_wf", "gen_kind_types", "gen_kind_ser_table", "gen_kind_de_table",
-                        "gen_default_deadline_wire"],
+                        "gen_default_deadline_wire", "gen_seq_tables"],
     "cases_header": WIRE_HDR.format(mods="Shipped Checks.C15check"),
     "case_term": lambda c: f"({c['cfg']}, {c['ops']}, {c['obs']})",
     "quick": {"count": 160},
@@ -270,7 +277,10 @@ SPECS["C15"] = {
             "with 1..3 hand-made JSON texts for the differential test of the two parsers (real serde_json output with "
             "random whitespace at token boundaries, pretty-printed output, \\uXXXX escapes incl. surrogate pairs, numbers at "
             "the u64 / i64 boundaries, unknown members with nested values before / between / duplicated around the known "
-            "ones, reordered members, omitted optional members, and texts both must reject: lone surrogates, bad escapes, "
+            "ones, reordered members, omitted optional members, ARRAY-form structs at every nesting level (whole message, "
+            "context, trace context, Duration as [secs,nanos], Response, ServerError - each level object or array "
+            "independently; complete, one element short, one element too many, object context without deadline inside an "
+            "array-form Request), and texts both must reject: lone surrogates, bad escapes, "
             "raw control characters, leading zeros, truncation at a random position, trailing garbage, structural damage) "
             "and a fifth of the bincode scripts with one hand-written payload (non-canonical varints, trailing bytes); compared per message: the serde calls of the real Serialize "
             "impl (recording serializer) against the model's event list, the bytes on the stream against the model's "
@@ -318,7 +328,9 @@ SPECS["C15"] = {
     "design_ref": "DESIGN.md section 6 (C15)",
     "assumptions": ["bodies are valid UTF-8 strings shorter than 2^64 bytes; frames fit LengthDelimitedCodec's default "
                     "8 MiB limit (larger ones are refused by the encoder, which the model reproduces)",
-                    "virtual clock frozen during a script, so the remaining Duration written equals the one chosen"],
+                    "virtual clock frozen during a script, so the remaining Duration written equals the one chosen",
+                    "the byte stream never answers a write with Ok(0) (tokio-util turns that into a WriteZero error; in the "
+                    "model and the harness a write of 0 bytes is Pending) - AUDIT.md round 2, F13"],
 }
 
 SPECS["C17"] = {
@@ -481,7 +493,7 @@ SRV_ASSUME_B1 = ("reuse_only_after_completion (B1): the peer re-sends a request 
                  "(duplicate) or after a response bearing it was transmitted; necessary, see the _refuted theorem")
 SRV_ASSUME_STOP = ("stops_after_error: the application does not poll the Requests stream again after it yielded an "
                    "error (tarpc's execute() stops there); the server does not latch transport failures")
-SRV_ASSUME_CLOCK = "virtual clock below 2^35 ms (the DelayQueue's idle-wheel range limit is an environment hypothesis of C16)"
+SRV_ASSUME_CLOCK = ("virtual clock below 2^35 ms in the generated scripts; the exact range in which the timer-wheel transliteration is a correct priority queue and the server model's order oracle provably agrees is clock <= 2^36 - 1 - MAX_TIMEOUT = 37183476735 ms (C16_dq_poll, C16_server_oracle_agrees; beyond it: TimerWheelWitness)")
 SRV_K1_WITNESS = "L=1,B=1,C=0,K=c|R1.1000.7.5 P X1.7 R2.1000.7.6 P"
 SRV_K2_WITNESS = "L=1,B=1,C=0,K=c|R1.100.7.5 P H0 r0 A400 P H0 r1 P H0"
 
@@ -778,7 +790,7 @@ SPECS["C16"] = {
     "sweeps": [[]],
     "shrink_budget": 40,
     "known_sigs": {"eof-after-length-header":
-                   lambda small: small.startswith("mode=stream") and ",cut=4|" in small and " G:" not in small
+                   lambda small: small.startswith("mode=stream") and (",cut=4|" in small or ",cut=4," in small) and " G:" not in small
                    and "|G:" not in small},
     "known_witness": {"eof-after-length-header":
                       "mode=stream,sub=none,codec=bincode,rd=2.0.3,cut=4|"
@@ -793,7 +805,9 @@ SPECS["C16"] = {
             "2^36-1 ms +- 1, 3 years, 100 years, year 9999 +- 1 s, i64::MAX s +- 1, u64::MAX} x nanos {0, 1, 10^9 - 1, 10^9, "
             "2 * 10^9 - 1, u32::MAX} or omitted (JSON), echo or never-ending handlers, reuse of ids in flight, floods of 2..300 "
             "duplicates, cancels for used and never-used ids (boundary ids 0, 250, 251, 2^16, 2^32, 2^64 - 1), always ending "
-            "with a probe request that must be served; a third of the server and client scripts START with a quiet "
+            "with a probe request that must be served; half of the JSON server and client scripts write every struct of "
+            "every frame in its ARRAY form (serde's visit_seq: request, context, trace context, Duration as [secs,nanos], "
+            "responses, ServerError) or in a mixed form, with the same boundary deadlines incl. the Duration overflow; a third of the server and client scripts START with a quiet "
             "connection age from {0, 1, 65, 100, 300, 429 days} (both clocks advance, no timer armed or fired, so the timer "
             "wheel lags the clock - all inside dq_env, whose limit is 430.36 days) followed by a request / local call whose "
             "deadline is 2, 3, 100 or 285 years away (timer clamped to MAX_TIMEOUT: age + clamp must fit the wheel); CLIENT (client::new dispatch): calls whose deadline is now +/- the same "
